@@ -220,7 +220,11 @@ def check(spec, ctx):
         ctx.fail(f"rasterize accepted {nvals} values for {len(geoms)} geometries", spec, None, "ValueError", kind="false_accept")
         return
 
+    from vf.core import snapshot
+
+    before = snapshot((arr, geoms, kw.get("values")))
     res = ctx.call(spec, f"rasterize({len(geoms)} geometries, template {spec['order']} {nt}x{nf})", rasterize, geoms, arr, **kw)
+    ctx.unchanged(spec, "rasterize: template / geometries / values", before, (arr, geoms, kw.get("values")))
     ctx.case(spec, nontrivial=nontrivial, labels=labels, out={"shape": list(res.shape), "dims": list(res.dims)})
 
     if set(res.dims) != {"time", "frequency"}:
